@@ -238,7 +238,11 @@ func (e *Environment) makeRef(name string) (*Reference, bool) {
 		// Only a constant of the top level scope is the same for every call of a function: a "constant" of an
 		// enclosing function call (N in mk=func(N){()=>N+1}) differs from call to call.
 		constantAtRoot := Constant(name) && ref.RefEnv.depth == 0
-		if !constantAtRoot && obj.Type() != FUNC {
+		// Likewise a function held by a variable of an enclosing call (g in mk=func(g){func(x){g(x)}}) differs from
+		// closure to closure although the closures share their text: only top level functions are stable (and
+		// changing one of those drops the cache, see functionChanged).
+		funcAtRoot := obj.Type() == FUNC && ref.RefEnv.depth == 0
+		if !constantAtRoot && !funcAtRoot {
 			orig.getMiss++ // creating a ref to a non constant is a miss.
 			log.Debugf("makeRef(%s) GETMISS %d", name, orig.getMiss)
 		}
@@ -268,7 +272,7 @@ func (e *Environment) Get(name string) (Object, bool) {
 				// The referenced variable was deleted meanwhile: forget the stale reference and look the name up again.
 				delete(e.store, name)
 				ok = false
-			} else if !(Constant(r.Name) && r.RefEnv.depth == 0) && r.ObjValue().Type() != FUNC {
+			} else if !(Constant(r.Name) && r.RefEnv.depth == 0) && !(r.ObjValue().Type() == FUNC && r.RefEnv.depth == 0) {
 				// using references to non constant (extensions are constants) implies uncacheable.
 				e.getMiss++
 				log.Debugf("get(%s) GETMISS %d", name, e.getMiss)
